@@ -15,6 +15,8 @@ RET  == [op |-> "retain"]
 REL  == [op |-> "release"]
 RELCH == [op |-> "relchild"]
 SETCTX(v) == [op |-> "setctx", v |-> v]
+RETARGET(i) == [op |-> "retarget", i |-> i]
+RELTQ == [op |-> "reltq"]
 NoBody(I) == [i \in I |-> "none"]
 
 \* ---- R1: serial lane; both clients async and release; c1 changes the context before its release ----
@@ -69,4 +71,10 @@ ItemsR7 == {"a", "b", "y"}
 KindR7 == ("a" :> "ra" @@ "b" :> "bs" @@ "y" :> "ra")
 BodyR7 == ("a" :> "none" @@ "b" :> "none" @@ "y" :> "release")
 ProgR7 == ("c1" :> <<A("a"), BS("b"), REL>> @@ "c2" :> <<A("y")>>)
+
+\* ---- R8: legacy retarget of the ACTIVE lane, suspended or busy or idle at the call; then the application drops the new target ----
+ItemsR8 == {"a", "rt"}
+KindR8 == ("a" :> "ra" @@ "rt" :> "ba")
+BodyR8 == ("a" :> "none" @@ "rt" :> "retarget")
+ProgR8 == ("c1" :> <<A("a"), RETARGET("rt"), RELTQ, REL>> @@ "c2" :> <<SUSP, RES, REL>>)
 =============================================================================
